@@ -394,6 +394,46 @@ func Spell(toks []Tok, d Delims, hy []bool) string {
 	return sb.String()
 }
 
+// SpellTight is Spell with the padding between delimiter (or hyphen) and content
+// left out for the tokens whose flag in tight is set (one flag per non-text
+// token): {%-endif-%}, {{x}}. A content that itself starts or ends with a
+// hyphen keeps its padding, since {{-2}} means "trim, then 2".
+func SpellTight(toks []Tok, d Delims, hy []bool, tight []bool) string {
+	var sb strings.Builder
+	k := 0
+	for _, t := range toks {
+		if t.Kind == TText {
+			sb.WriteString(t.Body)
+			continue
+		}
+		l, r := d.OL, d.OR
+		if t.Kind == TTag {
+			l, r = d.TL, d.TR
+		}
+		hl, hr := false, false
+		if 2*k+1 < len(hy) {
+			hl, hr = hy[2*k], hy[2*k+1]
+		}
+		pad := " "
+		if k < len(tight) && tight[k] && !strings.HasPrefix(t.Body, "-") && !strings.HasSuffix(t.Body, "-") {
+			pad = ""
+		}
+		k++
+		sb.WriteString(l)
+		if hl {
+			sb.WriteString("-")
+		}
+		sb.WriteString(pad)
+		sb.WriteString(t.Body)
+		sb.WriteString(pad)
+		if hr {
+			sb.WriteString("-")
+		}
+		sb.WriteString(r)
+	}
+	return sb.String()
+}
+
 // Source prints nodes with default delimiters, conventional spacing and no hyphens.
 func Source(nodes []*N) string { return Spell(Tokens(nodes, nil), DefaultDelims, nil) }
 
